@@ -265,8 +265,8 @@ class Verdict:
 
     def violation(self, signature, what, payload):
         for k in known_findings():
-            if k["property"] == self.ctx.prop and k.get("status") == "known" and k["signature"] == signature:
-                if (k["id"], what) not in [(a, b) for a, b, _ in self.known_hits]:
+            if k["property"] == self.ctx.prop and k.get("status") == "known" and signature in k.get("signatures", [k.get("signature")]):
+                if k["id"] not in [a for a, _, _ in self.known_hits]:
                     self.known_hits.append((k["id"], k["what"], payload))
                 return
         if signature not in [s for s, _, _ in self.violations]:
